@@ -177,7 +177,7 @@ def build_behaviours(chk, universe, gens, tier):
         shallow = [i for i in order if len(gens[i]["actions"]) <= 2]
         deep = [i for i in order if len(gens[i]["actions"]) > 2]
         rng.shuffle(deep)
-        order = shallow + deep[:200]
+        order = shallow + deep[:170]
     chk.cov["states_generated"] = len(gens)
     chk.cov["states_executed"] = len(order)
     for gi in order:
@@ -619,7 +619,7 @@ def run(tier, seed):
         "for every distinct abstract state reached by a backbone of honest "
         "requests, identity updates and suspension (TLC breadth first; "
         "quick: all states of depth <= 1 and a seeded sample of depth 2; "
-        "thorough: all of depth <= 2 and 200 of depth 3) TLC evaluates Valid(m) for every message of the "
+        "thorough: all of depth <= 2 and 170 of depth 3) TLC evaluates Valid(m) for every message of the "
         "lattice signing key x claimed sender x recipient x end point x "
         "kind x payload x tamper class; all refused ones (tampered "
         "variants only of otherwise valid messages) are sent to the real "
